@@ -38,6 +38,7 @@ type blockOp struct {
 	sends []string // channel descs of send alternatives
 	dflt  bool
 	desc  string
+	poll  map[string]bool // timer alternatives whose branch leads back to this very select (a polling loop): the timer re-arms, it does not end the wait
 }
 
 func blockingOps(fn *ssa.Function) []blockOp {
@@ -61,6 +62,17 @@ func blockingOps(fn *ssa.Function) []blockOp {
 						op.wakes = append(op.wakes, desc(chanOrigin(st.Chan, 0)))
 					}
 				}
+				for i, st := range x.States {
+					if st.Dir != types.SendOnly && isTimerOrCtx(timerChanDesc(st.Chan)) && !strings.Contains(timerChanDesc(st.Chan), "context.Context.Done(") {
+						if body := selectCaseBody(x, i); body != nil && reachesBlock(body, x.Block()) {
+							if op.poll == nil {
+								op.poll = map[string]bool{}
+							}
+							op.poll[timerChanDesc(st.Chan)] = true
+							op.poll[desc(chanOrigin(st.Chan, 0))] = true
+						}
+					}
+				}
 				out = append(out, op)
 			case ssa.CallInstruction:
 				if _, isGo := x.(*ssa.Go); isGo {
@@ -73,6 +85,32 @@ func blockingOps(fn *ssa.Function) []blockOp {
 		}
 	}
 	return out
+}
+
+// selectCaseBody: the block control reaches when state i of the select fires.
+func selectCaseBody(sel *ssa.Select, i int) *ssa.BasicBlock {
+	for _, r := range *sel.Referrers() {
+		ex, ok := r.(*ssa.Extract)
+		if !ok || ex.Index != 0 {
+			continue
+		}
+		for _, u := range *ex.Referrers() {
+			bo, ok := u.(*ssa.BinOp)
+			if !ok || bo.Op != token.EQL {
+				continue
+			}
+			k, ok := bo.Y.(*ssa.Const)
+			if !ok || k.Value == nil || k.Int64() != int64(i) {
+				continue
+			}
+			for _, v := range *bo.Referrers() {
+				if iff, ok := v.(*ssa.If); ok {
+					return iff.Block().Succs[0]
+				}
+			}
+		}
+	}
+	return nil
 }
 
 // poppedChanDesc: a channel that was itself received from a channel-of-channels field (the per-request result channel
@@ -255,6 +293,11 @@ func isTimerOrCtx(ch string) bool {
 		strings.Contains(ch, "context.Context.Done(") || strings.HasPrefix(ch, "call:time.Tick(") || strings.HasSuffix(ch, "Timer.C") || strings.HasSuffix(ch, "Ticker.C") || strings.HasSuffix(ch, "ticker.C")
 }
 
+// engineStrict: judging an operation of the protocol engine's own goroutines. There a timer that only re-arms a
+// polling loop is no way out: what the loop polls for is produced by a sibling goroutine that is gone once the
+// connection ended, so the wait must also listen to a channel closed on connection end.
+var engineStrict bool
+
 // wakeable: the op cannot block forever given the set of wake channel predicates.
 func wakeable(op blockOp, wake func(ch string) bool) (bool, string) {
 	if op.dflt {
@@ -262,6 +305,9 @@ func wakeable(op blockOp, wake func(ch string) bool) (bool, string) {
 	}
 	for _, r := range op.recvs {
 		if isTimerOrCtx(r) {
+			if engineStrict && op.poll[r] {
+				continue // re-armed on every round of a polling loop
+			}
 			return true, "timer/context " + r
 		}
 		if wake(r) {
@@ -273,6 +319,9 @@ func wakeable(op blockOp, wake func(ch string) bool) (bool, string) {
 	if _, audited := auditTable[opKey(op)]; !audited {
 		for _, r := range op.wakes {
 			if isTimerOrCtx(r) {
+				if engineStrict && op.poll[r] {
+					continue
+				}
 				return true, "timer/context " + r
 			}
 			if wake(r) {
@@ -364,11 +413,47 @@ func runC15(c *Ctx) {
 	for _, want := range []string{".recvDoneChan", ".sendDoneChan", ".doneChan"} {
 		c.Check(W[want], "shutdown-closes", "protocol:"+want, start.Pos(), want+" is closed once the connection ends (all operations of its closing goroutine are wake-able)", want+" is not guaranteed to close when the connection ends: something that closes it can block forever")
 	}
-	for name, fn := range loops {
-		for _, f := range withAnon(fn) {
+	engineSeen := map[*ssa.Function]bool{}
+	var loopNames []string
+	for name := range loops {
+		loopNames = append(loopNames, name)
+	}
+	sort.Strings(loopNames)
+	for _, name := range loopNames {
+		for _, f := range engineFuncs(loops[name]) {
+			if engineSeen[f] {
+				continue
+			}
+			engineSeen[f] = true
+			own := false
+			for _, g := range withAnon(loops[name]) {
+				if g == f {
+					own = true
+				}
+			}
 			for _, op := range blockingOps(f) {
-				ok, why := c.engineOpOK(op, W)
-				c.Check(ok, "engine-op", opKey(op), op.instr.Pos(), why, "engine goroutine "+name+" can block forever here after the connection ends: "+op.desc)
+				var ok bool
+				var why string
+				if own {
+					ok, why = c.engineOpOK(op, W)
+				} else {
+					// an unexported helper the loop calls: the protocol's own done channel counts as well (it closes once
+					// both loops have ended), Stop()'s channel does not — nobody is obliged to call Stop after the
+					// connection ended
+					engineStrict = true
+					ok, why = wakeableLifted(op, func(ch string) bool {
+						return suffixIn(ch, W) || strings.Contains(ch, "DoneChan()") || strings.Contains(ch, ".DoneChan(") || strings.HasSuffix(ch, ".doneChan")
+					}, 2)
+					engineStrict = false
+					if !ok {
+						ok, why = c.auditedNonBlocking(op)
+					}
+				}
+				bad := "engine goroutine " + name + " can block forever here after the connection ends: " + op.desc
+				if len(op.poll) > 0 {
+					bad = "engine goroutine " + name + " can poll forever here after the connection ends (the timer case only re-arms the loop, and no other case fires once the connection is gone): " + op.desc
+				}
+				c.Check(ok, "engine-op", opKey(op), op.instr.Pos(), why, bad)
 			}
 		}
 	}
@@ -379,7 +464,7 @@ func runC15(c *Ctx) {
 	// ---------------- other functions of package protocol (API context: callers' goroutines)
 	inLoops := map[*ssa.Function]bool{}
 	for _, fn := range loops {
-		for _, f := range withAnon(fn) {
+		for _, f := range engineFuncs(fn) {
 			inLoops[f] = true
 		}
 	}
@@ -621,7 +706,40 @@ func (c *Ctx) opSites(op blockOp, inCtx func(*ssa.Function) bool, depth int) []o
 }
 
 // engineOpOK: operation of an engine loop is wake-able by W (or audited).
+// engineFuncs: what runs on an engine goroutine — the loop, its closures, and the unexported functions of its own
+// package it calls statically (not what it starts with go, and not exported API such as SendError, which callers on
+// other goroutines share and which is judged in the API section).
+func engineFuncs(fn *ssa.Function) []*ssa.Function {
+	var out []*ssa.Function
+	seen := map[*ssa.Function]bool{}
+	var add func(f *ssa.Function, d int)
+	add = func(f *ssa.Function, d int) {
+		if f == nil || seen[f] || len(f.Blocks) == 0 || d > 4 {
+			return
+		}
+		seen[f] = true
+		out = append(out, f)
+		for _, a := range f.AnonFuncs {
+			add(a, d)
+		}
+		for _, ci := range allCalls(f) {
+			if _, isGo := ci.(*ssa.Go); isGo {
+				continue
+			}
+			h := ci.Common().StaticCallee()
+			if h == nil || fnPkg(h) == nil || fnPkg(h) != fnPkg(fn) || h.Object() == nil || h.Object().Exported() {
+				continue
+			}
+			add(h, d+1)
+		}
+	}
+	add(fn, 0)
+	return out
+}
+
 func (c *Ctx) engineOpOK(op blockOp, W map[string]bool) (bool, string) {
+	engineStrict = true
+	defer func() { engineStrict = false }()
 	if ok, why := wakeable(op, func(ch string) bool { return suffixIn(ch, W) }); ok {
 		return true, why
 	}
